@@ -15,7 +15,7 @@ def check(run):
     run.oblige("build:harness", binp is not None, err or "")
     if binp is None:
         return
-    n = 6000 if run.tier == "quick" else 120000
+    n = 20000 if run.tier == "quick" else 120000
     cases = urlcorr.wpt_cases() + urlcorr.gen_cases(run.rng, n, hist_frac=0.7)
     res = urlcorr.explore(run, binp, cases, with_spec=False)
     if res is None:
